@@ -854,12 +854,21 @@ def ma(ctx):
                 out |= call_terms(cb, flc.backward({('l', 0)}), flc)
         return out
     ok_u = ok_c = ok_t = False
+    used_key, alloc_key = '0', '1'
+    U, C = {'String::len', 'mem::queue::MemQueue::size'}, {'String::capacity', 'mem::queue::MemQueue::capacity'}
     for (p, kind, data) in b.defs.get(0, []):
-        if kind == 'assign' and data['rv']['k'] == 'agg' and data['rv'].get('agg') == 'tuple' and len(data['rv']['ops']) == 2:
-            t0, t1 = terms_of(data['rv']['ops'][0]), terms_of(data['rv']['ops'][1])
-            ok_u = {'String::len', 'mem::queue::MemQueue::size'} <= t0 and not ({'String::capacity', 'mem::queue::MemQueue::capacity'} & t0)
-            ok_c = {'String::capacity', 'mem::queue::MemQueue::capacity'} <= t1 and not ({'String::len', 'mem::queue::MemQueue::size'} & t1)
+        # the pair of figures: a tuple, or a two-field struct (`MemUsage { used_bytes, allocated_bytes }`); which
+        # component is which is decided by what it is made of, not by its position or name
+        if kind == 'assign' and data['rv']['k'] == 'agg' and data['rv'].get('agg') in ('tuple', 'adt') and not data['rv'].get('is_enum') and len(data['rv']['ops']) == 2:
+            keys = data['rv'].get('fields') or ['0', '1']
+            tt = [terms_of(o) for o in data['rv']['ops']]
+            iu = [i for i in (0, 1) if U <= tt[i] and not (C & tt[i])]
+            ic = [i for i in (0, 1) if C <= tt[i] and not (U & tt[i])]
+            ok_u = len(iu) == 1
+            ok_c = len(ic) == 1 and ic != iu
             ok_t = ok_u and ok_c
+            if ok_t:
+                used_key, alloc_key = keys[iu[0]], keys[ic[0]]
     ctx.check(ok_u and ok_c, 'name-pair', b.span, 'used adds name.len() + queue.size(); allocated adds name.capacity() + queue.capacity()', 'queue names are not accounted as len() in used and capacity() in allocated')
     # tuple order and mapping in resource_usage
     ru = [x for x in root_bodies(ctx) if x.ret_ty == 'ResourceUsage']
@@ -875,8 +884,8 @@ def ma(ctx):
             szc = [c for c in r.calls if c.path == 'mem::queues::MemQueues::size']
             if szc:
                 dl = szc[0].dest_local()
-                t0 = flr.forward({('lf', dl, '0')})
-                t1 = flr.forward({('lf', dl, '1')})
+                t0 = flr.forward({('lf', dl, used_key)})
+                t1 = flr.forward({('lf', dl, alloc_key)})
                 u, a_ = agg_field_op(agg, 'memory_used_bytes'), agg_field_op(agg, 'memory_allocated_bytes')
                 okm = u is not None and a_ is not None and flr.op_tainted(u, t0) and not flr.op_tainted(u, t1) and flr.op_tainted(a_, t1) and not flr.op_tainted(a_, t0)
                 # nothing else is added to the two memory figures (they must return to the names-only baseline
@@ -1159,6 +1168,7 @@ def ni8(ctx):
     configured quantity would make one policy panic where the others return)."""
     n = 0
     bad = []
+    bad_clock = []
     cons = {b.path for b in consult_bodies(ctx)}
     for b in all_nontest_bodies(ctx):
         if not (in_policy_module(b) or b.path in cons):
@@ -1174,5 +1184,14 @@ def ni8(ctx):
                 cs = b.call_at.get(b.pterm[bi])
                 if cs is not None and re.search(r'(::div|::rem|::div_f32|::div_f64|::checked_div|Div<.*>>::div|Rem<.*>>::rem)$', cs.name) and 'checked' not in cs.name:
                     bad.append('%s (%s: %s)' % (b.loc(cs.point), b.path, cs.name[-40:]))
+                # clock arithmetic that panics on underflow / overflow / negative input (std documents each):
+                # Duration - Duration, Instant - Duration, Duration * n, from_secs_f*, mul_f*; the saturating_ /
+                # checked_ forms, Instant - Instant (saturates), + and comparisons are fine
+                if cs is not None and re.search(r'^<std::time::(Duration|Instant|SystemTime) as std::ops::(Sub|SubAssign)(<std::time::Duration>)?>::sub(_assign)?$'
+                                                r'|^<std::time::Duration as std::ops::(Mul|MulAssign)<u32>>::mul(_assign)?$|^<u32 as std::ops::Mul<std::time::Duration>>::mul$'
+                                                r'|^std::time::Duration::(from_secs_f32|from_secs_f64|mul_f32|mul_f64)$', cs.name):
+                    bad_clock.append('%s (%s: %s)' % (b.loc(cs.point), b.path, cs.name[-60:]))
+    ctx.check(not bad_clock, 'no-panicking-clock-arithmetic', '-', 'no Duration/Instant subtraction, scaling or float conversion that can panic in the %d policy bodies' % n,
+              'policy code does clock arithmetic that panics on underflow/overflow (%s): a call panics under OnDelay where the other policies return' % sorted(set(bad_clock)), nontrivial=False)
     ctx.check(not bad, 'no-division-in-policy-code', '-', 'no division / remainder in the %d policy bodies' % n,
               'policy code divides by a run-time quantity (%s): a zero interval or similar configuration panics under one policy only' % bad, nontrivial=False)
